@@ -37,6 +37,61 @@ var opFields = map[string][]string{
 	"modupdate": {"ctx", "cons", "provs", "thr", "cap", "timeout", "freq", "total"},
 	"withdraw":  {"owner", "prov"},
 	"endblock":  {"dt"},
+
+	// SPEC.md §4: queries and genesis ops. The fields of `query` that follow
+	// via= and kind= depend on the kind (queryFields).
+	"query":    {"via", "kind"},
+	"prep":     {},
+	"export":   {},
+	"validate": {},
+	"jsonrt":   {},
+	"reimport": {},
+}
+
+// queryFields is the grammar of SPEC.md §4.1: for every query kind the keys
+// that follow `query via=… kind=…`, in this order.
+var queryFields = map[string][]string{
+	"definition":      {"name"},
+	"binding":         {"svc", "prov"},
+	"bindings":        {"svc", "owner"},
+	"withdraw":        {"owner"},
+	"context":         {"ctx"},
+	"request":         {"req"},
+	"requests":        {"svc", "prov"},
+	"requests_by_ctx": {"ctx", "batch"},
+	"response":        {"req"},
+	"responses":       {"ctx", "batch"},
+	"fees":            {"prov"},
+	"params":          {},
+}
+
+// queryKinds lists the kinds in the order of the table of SPEC.md §4.1.
+var queryKinds = []string{"definition", "binding", "bindings", "withdraw", "context", "request", "requests",
+	"requests_by_ctx", "response", "responses", "fees", "params"}
+
+// idFields is the grammar of the lines read by `trace ids` (SPEC.md §4.3).
+var idFields = map[string][]string{
+	"ctxid":    {"tx", "idx"},
+	"splitctx": {"id"},
+	"reqid":    {"ctx", "batch", "height", "index"},
+	"splitreq": {"id"},
+}
+
+// fieldsOf returns the full field list of an op: the table entry, extended for
+// `query` by the fields of its kind (kind is only looked at for `query`).
+func fieldsOf(name, kind string) ([]string, bool) {
+	fields, ok := opFields[name]
+	if !ok {
+		return nil, false
+	}
+	if name == "query" {
+		extra, ok := queryFields[kind]
+		if !ok {
+			return nil, false
+		}
+		fields = append(append([]string{}, fields...), extra...)
+	}
+	return fields, true
 }
 
 // Op is one parsed op line. Values are kept as text and converted by the typed
@@ -51,11 +106,20 @@ type Op struct {
 
 // parseOp splits an op line into its key=value pairs and checks them against
 // the grammar table (names and order).
-func parseOp(line string) (*Op, error) {
+func parseOp(line string) (*Op, error) { return parseLine(opFields, line) }
+
+// parseLine is parseOp over an arbitrary grammar table (`trace ids` has its own).
+func parseLine(table map[string][]string, line string) (*Op, error) {
 	parts := strings.Split(line, " ")
-	fields, ok := opFields[parts[0]]
+	fields, ok := table[parts[0]]
 	if !ok {
 		return nil, fmt.Errorf("unknown op %q", parts[0])
+	}
+	if parts[0] == "query" && len(parts) >= 3 && strings.HasPrefix(parts[2], "kind=") {
+		kind := parts[2][len("kind="):]
+		if fields, ok = fieldsOf("query", kind); !ok {
+			return nil, fmt.Errorf("op query: unknown kind %q (have: %s)", kind, strings.Join(queryKinds, " "))
+		}
 	}
 	if len(parts)-1 != len(fields) {
 		return nil, fmt.Errorf("op %s: expected %d fields, got %d", parts[0], len(fields), len(parts)-1)
@@ -140,6 +204,14 @@ func (o *Op) uint64(key string) uint64 {
 		o.fail(key, "a decimal uint64")
 	}
 	return n
+}
+
+func (o *Op) int16(key string) int16 {
+	n, err := strconv.ParseInt(o.kv[key], 10, 16)
+	if err != nil {
+		o.fail(key, "a decimal int16")
+	}
+	return int16(n)
 }
 
 func (o *Op) uint32(key string) uint32 {
